@@ -1,0 +1,19 @@
+//go:build verif
+
+// Read-only access to the interning tables of USE flags and USE dependencies for the
+// verification harness (property C14).  Compiled only with -tags verif.
+
+package atom
+
+// VerifUseFlagName returns the name behind the UseFlag index of a UseDependency.
+func VerifUseFlagName(i useFlagIndexType) string {
+	if int(i) >= len(useFlagIndexToNames) {
+		return ""
+	}
+	return useFlagIndexToNames[i]
+}
+
+// VerifUseDependencyAt returns the USE dependency behind one element of a UseDependencies list.
+func VerifUseDependencyAt(i useDependencyIndexType) UseDependency {
+	return useDependencyList[i]
+}
